@@ -149,3 +149,88 @@ def umeyama_oracle(run, case, x, y, with_scale, outcome, pfx="umeyama", cloud_rn
     if detcov < 0:
         run.hit(pfx + ": reflection branch (det cov < 0) observed")
     return {"d": d, "gap": gap, "well": well, "r": r, "t": t, "c": c, "horn": (Rh, th, ch)}
+
+
+# ------------------------------------------------------------------ object snapshots
+def field_snapshot(obj):
+    """
+    Bit-level snapshot of the fields that currently exist on a trajectory / result object,
+    WITHOUT forcing any lazy view (so the monitor neither masks nor creates stale caches).
+    """
+    snap = {}
+    d = getattr(obj, "__dict__", {})
+    for k, v in d.items():
+        if isinstance(v, np.ndarray):
+            snap[k] = ("nd", v.shape, str(v.dtype), np.ascontiguousarray(v).tobytes())
+        elif isinstance(v, (list, tuple)) and len(v) and isinstance(v[0], np.ndarray):
+            snap[k] = ("ndlist", len(v), b"".join(np.ascontiguousarray(a).tobytes() for a in v))
+        elif isinstance(v, dict):
+            snap[k] = ("dict", _dict_snapshot(v))
+        else:
+            snap[k] = ("val", repr(v))
+    return snap
+
+
+def _dict_snapshot(dct):
+    out = []
+    for k in dct:
+        v = dct[k]
+        if isinstance(v, np.ndarray):
+            out.append((repr(k), "nd", v.shape, str(v.dtype), np.ascontiguousarray(v).tobytes()))
+        elif hasattr(v, "__dict__") and not isinstance(v, type):
+            out.append((repr(k), "obj", tuple(sorted((a, repr(b)) for a, b in
+                                                      field_snapshot(v).items()))))
+        else:
+            out.append((repr(k), "val", repr(v)))
+    return tuple(out)
+
+
+def snapshot_diff(before, after):
+    """names of fields that existed before and differ now (new lazily created fields are fine)"""
+    bad = []
+    for k, v in before.items():
+        if k not in after:
+            bad.append(k + " (removed)")
+        elif after[k] != v:
+            bad.append(k)
+    return bad
+
+
+# ------------------------------------------------------------------ C08 view consistency
+def views_consistent(run, case, traj, scale=None, pfx="views", key=None):
+    """
+    All representations of a trajectory object describe the same poses: equal counts,
+    positions == matrix translations, R(quaternion) == matrix rotation, every matrix is a
+    valid rigid-body pose, timestamps count.  Reads every view (used at the end of a case).
+    Returns the views dict.
+    """
+    from vmon import gen
+    v = gen.read_views(traj)
+    n = len(v["T"])
+    key = key or pfx + ":inconsistent"
+    ok = run.check(v["p"].shape == (n, 3) and v["q"].shape == (n, 4) and traj.num_poses == n,
+                   pfx + ": equal counts", case,
+                   "counts differ: positions %s, quaternions %s, matrices %d, num_poses %d" %
+                   (v["p"].shape, v["q"].shape, n, traj.num_poses), key=key)
+    if "t" in v:
+        ok &= run.check(v["t"].shape == (n, ), pfx + ": stamps count", case,
+                        "timestamps %s for %d poses" % (v["t"].shape, n), key=key)
+    if not ok:
+        return v
+    sc = scale if scale is not None else 1.0 + float(np.max(np.abs(v["p"]))) if n else 1.0
+    dp = float(np.max(np.abs(v["p"] - v["T"][:, :3, 3]))) if n else 0.0
+    run.check(dp <= 1e-9 * sc, pfx + ": positions == matrix translations", case,
+              "positions differ from the matrix translations by %g" % dp, key=key)
+    worst_q, worst_se3, worst_qn = 0.0, 0.0, 0.0
+    for k in range(n):
+        Rq = rm.rot_from_quat_wxyz(v["q"][k])
+        worst_q = max(worst_q, float(np.max(np.abs(Rq - v["T"][k][:3, :3]))))
+        worst_se3 = max(worst_se3, rm.se3_defect(v["T"][k]))
+        worst_qn = max(worst_qn, abs(float(np.linalg.norm(v["q"][k])) - 1.0))
+    run.check(worst_q <= 1e-9, pfx + ": R(quaternion) == matrix rotation", case,
+              "quaternions and pose matrices describe rotations %g apart" % worst_q, key=key)
+    run.check(worst_qn <= 1e-9, pfx + ": unit quaternions", case,
+              "quaternion norm off by %g" % worst_qn, key=key)
+    run.check(worst_se3 <= 1e-9, pfx + ": matrices are rigid-body poses", case,
+              "a pose matrix is %g away from SE(3)" % worst_se3, key=pfx + ":not-se3")
+    return v
